@@ -139,7 +139,7 @@ theorem step_eval_arrayComp2 (s : St) (body : Expr) (spec : Specs) (env : EId) (
 def outLenInv (s s1 : St) {α} {xs : List α} : PostCond (List.Cursor xs × List TId) PS :=
   ⟨fun (cur, out) st => ⌜Safe st ∧ Le s st ∧ SzLe s1 st ∧ (∀ t ∈ out, t < st.thunks.size) ∧
       out.length = cur.prefix.length⌝,
-   fun e st => ⌜Safe st ∧ Good2 e⌝, fun _ => ⌜True⌝, ()⟩
+   fun e st => ⌜Safe st ∧ Good2 e ∧ SzLe s st⌝, fun _ => ⌜True⌝, ()⟩
 
 theorem step_eval_builtin2 (s : St) (b : Builtin) (args : Exprs) (env : EId) (tail : Bool) (d : Nat)
     (hS : Safe s) (henv : env < s.envs.size) (hc : CoreShaped (.builtin b args)) :
